@@ -269,6 +269,25 @@ UNITS.append(Unit('C04_matrix_ops', 'C04', list(MATMAT.values()) + MATRIX_IMPLS 
                   notes='same-shape Matrix kernels, 16 scalar impls, 12 assign impls, 31 element-wise maps on Matrix; shape preserved, '
                         'every element, mismatch rejected'))
 
+
+# ---------------------------------------------------------------- negation (Vector: into_iter().map().collect(); Matrix: -self.data re-wrapped)
+vec_neg = Fn(VEC + '{impl Neg for Vector}::neg', ret='r', outline=True,
+             ensures=['C04.impl.NegforVector.len:: r.v@.len() == self.v@.len()',
+                      'C04.impl.NegforVector.elem:: forall|k:int| 0 <= k < r.v@.len() ==> r.v@[k] == f_neg(self.v@[k])'],
+             rewrites=[('self.v.into_iter().map(', 'Vector { v: self.v.into_iter().map(',
+                        'R26: `ITER.collect()` into a Vector is `Vector { v: ITER.collect::<Vec<f64>>() }` by the one-line FromIterator impl (fingerprint-checked)'),
+                       ('.collect()', '.collect::<Vec<f64>>() }', 'R26 (second half)')],
+             closures={1: {'params': 'x: f64', 'ret': 'o: f64', 'ensures': ['o == f_neg(x)']}})
+mat_neg = Fn(MAT + '{impl Neg for Matrix}::neg', ret='r',
+             rewrites=[('-self.data', 'Neg::neg(self.data)', 'R17: unary minus on a Vector operand written as the trait call it desugars to (rule R15 targets f64 operands)')],
+             requires=['C04.impl.NegforMatrix.wf:: wf(self)'],
+             ensures=['C04.impl.NegforMatrix.shape:: r.nrows == self.nrows && r.ncols == self.ncols && wf(r)',
+                      'C04.impl.NegforMatrix.elem:: forall|k:int| 0 <= k < r.data.v@.len() ==> r.data.v@[k] == f_neg(self.data.v@[k])'])
+UNITS.append(Unit('C04_neg', 'C04', [vec_neg, mat_neg], use=_core_all, types=core.TYPES, spec=core.CORE_SPEC, type_spec=core.TYPE_SPEC, preludes=PRE,
+                  broadcast=('l0', 'ax_vec_from_refl'),
+                  fingerprints=[(VEC + '{impl FromIterator<f64> for Vector}::from_iter', '{ Self { v: Vec::from_iter(iter) } }')],
+                  notes='-Vector and -Matrix negate every element (IEEE sign flip, not 0 - x) and keep the shape'))
+
 # ---------------------------------------------------------------- reductions (L1: equal to their mathematical definition over the reals)
 UT = 'linalg::utils::'
 RED_SPEC = r'''
